@@ -65,7 +65,7 @@ V12_CUSTOM = ["V12_sections.encode_custom_sections.*", "V12_sections.fn:Module::
 V12_TRUST = ["TRUSTED model of the wasm-encoder section builders (V12): an export / data / custom section under construction is the sequence of entries handed to it; ExportKind::from(ExternalKind) is faithful; InitExpr::to_wasmencoder_type is faithful (numeric constants: Kani K4)",
              "V12 names three expressions of the data loop and one statement of the custom-section loop by rule R11 (iterator adapters / generic builders are outside Verus): their contracts are assumed; V12 assumes the InitInstr::fix_id_mapping contract that V3 proves",
              "rule R16: the loops / statements are cut out of encode_internal by text anchors and wrapped in declared headers; the side-effect records they also build (C23) are not specified"]
-V11_CODE = ["V11_emit.encode_code_section.*", "V11_emit.fn:Module::encode_code_section", "V11_emit.fn:Functions::is_deleted", "V11_emit.fn:Functions::get_kind", "V11_emit.fn:Functions::get_mut",
+V11_CODE = ["V11_emit.encode_function_section.*", "V11_emit.fn:Module::encode_function_section", "V11_emit.fn:Function::kind", "V11_emit.encode_code_section.*", "V11_emit.fn:Module::encode_code_section", "V11_emit.fn:Functions::is_deleted", "V11_emit.fn:Functions::get_kind", "V11_emit.fn:Functions::get_mut",
             "V11_emit.fn:Function::unwrap_local_mut", "V11_emit.fn:FuncKind::unwrap_local_mut"] + V11_EMIT
 V11_TRUST = ["TRUSTED model of wasm-encoder (V11): a function body under construction is the sequence of operators handed to Function::instruction; RoundtripReencoder::instruction converts each operator faithfully (the nested fn `encode` is assumed)",
              "V11 assumes the contract of fix_op_id_mapping that unit V3 proves (same clause text); wasmparser's derived Clone for Operator yields an equal value"]
